@@ -1964,6 +1964,37 @@ def gen_Network(repo):
         raise AnchorLost("rdnetwork.py:_assert_validity raise conditions")
     L.append("def validityRaiseConds : List String := %s\n" % lean_list([lean_str(s) for _, s in conds]))
 
+    # ---- ownership of the units system: the constructor and the setter of Species / Reaction / RDNetwork store a COPY
+    # of the object they are given (so that later in-place edits of the caller's object, or of the shared default
+    # argument, cannot change an object already built)
+    rows = []
+    for cls in ("Species", "Reaction", "RDNetwork"):
+        ini = None
+        for n in net.tree.body:
+            if isinstance(n, ast.ClassDef) and n.name == cls:
+                for f in n.body:
+                    if isinstance(f, ast.FunctionDef) and f.name == "__init__":
+                        ini = f
+        if ini is None:
+            raise AnchorLost("rdnetwork.py:%s.__init__" % cls)
+        par = "units_system"
+        if par not in [a.arg for a in ini.args.args]:
+            raise AnchorLost("rdnetwork.py:%s.__init__ units_system parameter" % cls)
+        ctor_vals = [_norm(net, n.value) for n in ast.walk(ini) if isinstance(n, ast.Assign)
+                     and _norm(net, n.targets[0]) == "self.units_system"]
+        st = setter(cls, "units_system")
+        spar = st.args.args[1].arg
+        set_vals = []
+        for n in ast.walk(st):
+            if isinstance(n, ast.If) and ("type(%s)==UnitsSystem" % spar) in _norm(net, n.test):
+                set_vals += [_norm(net, a.value) for a in n.body if isinstance(a, ast.Assign)]
+        if len(ctor_vals) != 1 or len(set_vals) != 1:
+            raise AnchorLost("rdnetwork.py:%s units_system assignments" % cls)
+        rows.append((cls, ctor_vals[0] == par + ".copy()", set_vals[0] == spar + ".copy()"))
+    L.append("/-- (class, the constructor hands a copy of its `units_system` argument to the setter, the setter stores a copy) -/")
+    L.append("def unitsSystemCopied : List (String × Bool × Bool) := %s\n" % lean_list(
+        ["(%s, %s, %s)" % (lean_str(c), "true" if a else "false", "true" if b else "false") for c, a, b in rows]))
+
     # ---- label rules
     al_fn = vp.func("assert_string_is_a_valid_label")
     allab = _alpha(al_fn)
@@ -2213,6 +2244,12 @@ def gen_Validation(repo):
             raise AnchorLost("rdnetwork.py:%s number branch" % fname)
         L.append("def %s (n i : Int) : Bool := %s" % (lean, ExprTr(net, {iloc[0]: "i", cnt: "n"}).tr(inner[0].test)))
     L.append("")
+
+    # ---- get_species_index: the object state the lookup depends on (a label must be resolved against the CURRENT list)
+    gsx = _class_func(net, "RDNetwork", "get_species_index")
+    attrs = sorted({n.attr for n in ast.walk(gsx) if isinstance(n, ast.Attribute) and isinstance(n.value, ast.Name) and n.value.id == "self"})
+    L.append("/-- attributes of `self` that `RDNetwork.get_species_index` reads or writes -/")
+    L.append("def speciesLookupState : List String := %s\n" % lean_list([lean_str(a) for a in attrs]))
 
     # ---- named dimensions and the dimension every quantity field demands
     named = {}
